@@ -69,12 +69,47 @@ Gen<Case> makeGraphGen(const Cfg &cfg) {
     });
 }
 
+// cfg: prop, classes, families="layered;grid;...", maxa, maxb
+Gen<Case> makeFamilyGen(const Cfg &cfg) {
+    std::vector<std::string> classes = splitList(cfgGet(cfg, "classes", "DS:none"), ';');
+    std::vector<std::string> fams = splitList(cfgGet(cfg, "families", "layered;grid;cdag;ladder;diamonds"), ';');
+    std::string prop = cfgGet(cfg, "prop", "C19");
+    std::string extra = cfgGet(cfg, "extra", "");
+    return gen::exec([=]() {
+        std::string cl = *gen::resize(kNominalSize, gen::elementOf(classes));
+        auto parts = splitList(cl, ':');
+        Case c;
+        c.set("prop", prop);
+        c.set("class", parts[0]);
+        c.set("label", parts.size() > 1 ? parts[1] : "none");
+        for (auto &kv : splitList(extra, ';')) {
+            auto sp = kv.find(' ');
+            if (sp != std::string::npos)
+                c.set(kv.substr(0, sp), kv.substr(sp + 1));
+        }
+        std::string fam = *gen::resize(kNominalSize, gen::elementOf(fams));
+        c.set("family", fam);
+        int a = 2, b = 4;
+        if (fam == "layered") { a = *uni(2, 5); b = *uni(2, 41); }
+        else if (fam == "grid") { a = *uni(2, 11); b = *uni(2, 11); }
+        else if (fam == "cdag") { a = *uni(2, 31); b = 0; }
+        else if (fam == "ladder") { a = *uni(2, 41); b = 0; }
+        else if (fam == "diamonds") { a = *uni(2, 5); b = *uni(2, 31); }
+        c.set("fa", S(a));
+        c.set("fb", S(b));
+        c.set("fw", S(*wel({{3, 0}, {3, 1}, {2, 2}, {2, 3}})));
+        return c;
+    });
+}
+
 rc::Gen<Case> makeFileGen(const std::string &name, const Cfg &cfg, bool &found);
 
 rc::Gen<Case> makeExtraGen(const std::string &name, const Cfg &cfg, bool &found) {
     found = true;
     if (name == "graph")
         return makeGraphGen(cfg);
+    if (name == "family")
+        return makeFamilyGen(cfg);
     found = false;
     return rc::gen::just(Case());
 }
